@@ -209,4 +209,216 @@ theorem fold_finish_encode (p : Params) (hp : p.Valid) (d : List UInt8) :
   have := fold_finish p hp d BS.init (d.length + 1) h1 h2 (by simp [BS.init, BS.eff])
   simpa [BS.init, BS.eff, encode] using this
 
+/-! ### bridge 1, list half: one `consume_once` = a fold of `byteStep` over what it consumes -/
+
+/-- A byte that neither completes a stuff sequence nor fills the chunk joins the open chunk. -/
+theorem byteStep_join (p : Params) (σ : BS) (b : UInt8) (hA : ¬ (σ.mid ∧ b = FD))
+    (hB : σ.eff.length + 1 ≠ σ.M p) :
+    (byteStep p σ b).done = σ.done ∧ (byteStep p σ b).first = σ.first ∧
+      (byteStep p σ b).eff = σ.eff ++ [b] ∧ (byteStep p σ b).mid = decide (b = FE) := by
+  simp only [byteStep, if_neg hA, if_neg hB]
+  split
+  · rename_i hfe; subst hfe; simp [BS.eff]
+  · rename_i hfe; simp [BS.eff, hfe]
+
+/-- Folding over a stuff-free run that stays below the chunk limit: everything joins the open
+chunk, and an `FE` is held exactly when the run ends in `FE`. -/
+theorem fold_run (p : Params) (l : List UInt8) (σ : BS) (h0 : ¬ (σ.mid ∧ l.head? = some FD))
+    (hs : findStuff l = none) (hl : σ.eff.length + l.length < σ.M p) :
+    (l.foldl (byteStep p) σ).done = σ.done ∧ (l.foldl (byteStep p) σ).first = σ.first ∧
+      (l.foldl (byteStep p) σ).eff = σ.eff ++ l ∧
+      (l ≠ [] → (l.foldl (byteStep p) σ).mid = decide (l.getLast? = some FE)) := by
+  induction l generalizing σ with
+  | nil => simp
+  | cons b t ih =>
+    have hA : ¬ (σ.mid ∧ b = FD) := by simpa using h0
+    have hB : σ.eff.length + 1 ≠ σ.M p := by simp only [List.length_cons] at hl; omega
+    obtain ⟨j1, j2, j3, j4⟩ := byteStep_join p σ b hA hB
+    obtain ⟨hs1, hs2⟩ := findStuff_cons_none.1 hs
+    have h0' : ¬ ((byteStep p σ b).mid ∧ t.head? = some FD) := by
+      rw [j4]; intro ⟨hb, ht⟩; exact hs2 ⟨by simpa using hb, ht⟩
+    have hl' : (byteStep p σ b).eff.length + t.length < (byteStep p σ b).M p := by
+      simp only [BS.M, j2, j3, List.length_append, List.length_cons, List.length_nil] at hl ⊢
+      omega
+    obtain ⟨i1, i2, i3, i4⟩ := ih (byteStep p σ b) h0' hs1 hl'
+    simp only [List.foldl_cons]
+    refine ⟨i1.trans j1, i2.trans j2, by rw [i3, j3]; simp, fun _ => ?_⟩
+    cases t with
+    | nil => simp [j4]
+    | cons c t' => rw [i4 (by simp), List.getLast?_cons_cons]
+
+/-- `consume_once` on abstract states (same arms as `Enc.consumeOnce`). -/
+def onceA (p : Params) (σ : BS) (input : List UInt8) : BS × Nat :=
+  if σ.mid ∧ input.head? = some FD then (σ.close p, 1)
+  else
+    let remaining := σ.M p - σ.eff.length
+    let w := input.take remaining
+    match findStuff w with
+    | some i => ((⟨σ.done, σ.first, σ.eff ++ w.take i, false⟩ : BS).close p, i + 2)
+    | none =>
+      if w.length = remaining then ((⟨σ.done, σ.first, σ.eff ++ w, false⟩ : BS).close p, remaining)
+      else
+        (⟨σ.done, σ.first, σ.eff ++ w.take (if w.getLast? = some FE then w.length - 1 else w.length),
+          decide (w.getLast? = some FE)⟩, w.length)
+
+section
+variable (p : Params) (σ : BS) (input : List UInt8)
+
+theorem onceA_mid (hA : σ.mid ∧ input.head? = some FD) : onceA p σ input = (σ.close p, 1) := by
+  simp only [onceA, if_pos hA]
+
+theorem onceA_stuff (hA : ¬ (σ.mid ∧ input.head? = some FD)) {i : Nat}
+    (h : findStuff (input.take (σ.M p - σ.eff.length)) = some i) :
+    onceA p σ input =
+      ((⟨σ.done, σ.first, σ.eff ++ (input.take (σ.M p - σ.eff.length)).take i, false⟩ : BS).close p, i + 2) := by
+  simp only [onceA, if_neg hA, h]
+
+theorem onceA_full (hA : ¬ (σ.mid ∧ input.head? = some FD))
+    (h : findStuff (input.take (σ.M p - σ.eff.length)) = none)
+    (hl : (input.take (σ.M p - σ.eff.length)).length = σ.M p - σ.eff.length) :
+    onceA p σ input =
+      ((⟨σ.done, σ.first, σ.eff ++ input.take (σ.M p - σ.eff.length), false⟩ : BS).close p,
+        σ.M p - σ.eff.length) := by
+  simp only [onceA, if_neg hA, h, if_pos hl]
+
+theorem onceA_part (hA : ¬ (σ.mid ∧ input.head? = some FD))
+    (h : findStuff (input.take (σ.M p - σ.eff.length)) = none)
+    (hl : (input.take (σ.M p - σ.eff.length)).length ≠ σ.M p - σ.eff.length) :
+    onceA p σ input =
+      (⟨σ.done, σ.first,
+        σ.eff ++ (input.take (σ.M p - σ.eff.length)).take
+          (if (input.take (σ.M p - σ.eff.length)).getLast? = some FE
+           then (input.take (σ.M p - σ.eff.length)).length - 1
+           else (input.take (σ.M p - σ.eff.length)).length),
+        decide ((input.take (σ.M p - σ.eff.length)).getLast? = some FE)⟩,
+        (input.take (σ.M p - σ.eff.length)).length) := by
+  simp only [onceA, if_neg hA, h, if_neg hl]
+
+end
+
+theorem close_congr (p : Params) {σ τ : BS} (h1 : σ.done = τ.done) (h2 : σ.first = τ.first)
+    (h3 : σ.body = τ.body) : σ.close p = τ.close p := by
+  simp [BS.close, h1, h2, h3]
+
+theorem take_pred_of_getLast {w : List UInt8} {x : UInt8} (h : w.getLast? = some x) :
+    w.take (w.length - 1) ++ [x] = w := by
+  rcases List.eq_nil_or_concat w with hn | ⟨l', b, hb⟩
+  · subst hn; simp at h
+  · subst hb
+    simp only [List.concat_eq_append, List.getLast?_concat, Option.some.injEq] at h
+    subst h
+    simp
+
+theorem onceA_eq_fold (p : Params) (σ : BS) (input : List UInt8) (hne : input ≠ []) (hinv : σ.Inv p) :
+    0 < (onceA p σ input).2 ∧ (onceA p σ input).2 ≤ input.length ∧
+      (onceA p σ input).1 = (input.take (onceA p σ input).2).foldl (byteStep p) σ := by
+  have hlen0 : 0 < input.length := List.length_pos_iff.2 hne
+  by_cases hA : σ.mid ∧ input.head? = some FD
+  · rw [onceA_mid p σ input hA]
+    refine ⟨by simp, hlen0, ?_⟩
+    cases input with
+    | nil => exact absurd rfl hne
+    | cons b t =>
+      have hb : b = FD := by simpa using hA.2
+      subst hb
+      simp [byteStep, hA.1]
+  · have hrem : 0 < σ.M p - σ.eff.length := by unfold BS.Inv at hinv; omega
+    obtain ⟨w, hwg⟩ : ∃ w, input.take (σ.M p - σ.eff.length) = w := ⟨_, rfl⟩
+    have hw := hwg
+    have hwlen : w.length = min (σ.M p - σ.eff.length) input.length := by rw [← hw, List.length_take]
+    have hwhead : w.head? = input.head? := by
+      rw [← hw, List.head?_take, if_neg (by omega)]
+    cases hfs : findStuff w with
+    | some i =>
+      rw [onceA_stuff p σ input hA (by rw [hwg]; exact hfs), hwg]
+      obtain ⟨pre, post, hwe, hpl, hpre⟩ := findStuff_eq_some_iff.1 hfs
+      have hwl : w.length = i + 2 + post.length := by rw [hwe]; simp; omega
+      have htakei : w.take i = pre := by rw [hwe, List.take_left' hpl]
+      have htake2 : input.take (i + 2) = (pre ++ [FE]) ++ [FD] := by
+        have h1 : input.take (i + 2) = w.take (i + 2) := by
+          rw [← hw, List.take_take]; congr 1; omega
+        have h2 : w = ((pre ++ [FE]) ++ [FD]) ++ post := by rw [hwe]; simp
+        rw [h1, h2, List.take_left' (by simp; omega)]
+      refine ⟨by omega, by omega, ?_⟩
+      rw [htake2, List.foldl_append, htakei]
+      have h0 : ¬ (σ.mid ∧ (pre ++ [FE]).head? = some FD) := by
+        intro ⟨hm, hh⟩
+        apply hA; refine ⟨hm, ?_⟩
+        rw [← hwhead, hwe]
+        cases pre with
+        | nil => simp at hh; exact absurd hh FE_ne_FD
+        | cons x pre' => simpa using hh
+      have hs : findStuff (pre ++ [FE]) = none := by
+        rw [findStuff_append_none]; refine ⟨hpre, by simp, ?_⟩
+        intro ⟨_, hh⟩; simp at hh; exact FE_ne_FD hh
+      have hl : σ.eff.length + (pre ++ [FE]).length < σ.M p := by simp; omega
+      obtain ⟨r1, r2, r3, r4⟩ := fold_run p (pre ++ [FE]) σ h0 hs hl
+      have hmid : (List.foldl (byteStep p) σ (pre ++ [FE])).mid = true := by
+        rw [r4 (by simp)]; simp
+      have hbody : (List.foldl (byteStep p) σ (pre ++ [FE])).body = σ.eff ++ pre := by
+        have := r3
+        simp only [BS.eff, hmid, if_true] at this
+        rw [← List.append_assoc] at this
+        exact List.append_cancel_right this
+      simp only [List.foldl_cons, List.foldl_nil]
+      have hstep : byteStep p (List.foldl (byteStep p) σ (pre ++ [FE])) FD
+          = (List.foldl (byteStep p) σ (pre ++ [FE])).close p := by
+        simp only [byteStep, hmid, true_and, if_true]
+      rw [hstep]
+      exact close_congr p r1.symm r2.symm hbody.symm
+    | none =>
+      by_cases hfull : w.length = σ.M p - σ.eff.length
+      · rw [onceA_full p σ input hA (by rw [hwg]; exact hfs) (by rw [hwg]; exact hfull), hwg]
+        have hwne : w ≠ [] := by intro h; rw [h] at hfull; simp at hfull; omega
+        rcases List.eq_nil_or_concat w with hn | ⟨w', b, hb⟩
+        · exact absurd hn hwne
+        · rw [List.concat_eq_append] at hb
+          have hw'len : w'.length + 1 = σ.M p - σ.eff.length := by rw [← hfull, hb]; simp
+          refine ⟨hrem, by omega, ?_⟩
+          rw [hb, findStuff_append_none] at hfs
+          simp only [hb, List.foldl_append]
+          obtain ⟨hs1, _, hs3⟩ := hfs
+          have h0 : ¬ (σ.mid ∧ w'.head? = some FD) := by
+            intro ⟨hm, hh⟩
+            apply hA; refine ⟨hm, ?_⟩
+            rw [← hwhead, hb]
+            cases w' with
+            | nil => simp at hh
+            | cons x t => simpa using hh
+          obtain ⟨r1, r2, r3, r4⟩ := fold_run p w' σ h0 hs1 (by omega)
+          have hA' : ¬ ((List.foldl (byteStep p) σ w').mid ∧ b = FD) := by
+            intro ⟨hm, hbd⟩
+            cases w' with
+            | nil =>
+              apply hA
+              simp only [List.foldl_nil] at hm
+              refine ⟨hm, ?_⟩
+              rw [← hwhead, hb]; simp [hbd]
+            | cons x t =>
+              rw [r4 (by simp)] at hm
+              exact hs3 ⟨by simpa using hm, by simp [hbd]⟩
+          have hB' : (List.foldl (byteStep p) σ w').eff.length + 1 = (List.foldl (byteStep p) σ w').M p := by
+            rw [r3]; simp only [BS.M, r2, List.length_append]; simp only [BS.M] at hw'len hrem; omega
+          simp only [List.foldl_cons, List.foldl_nil, byteStep, if_neg hA', if_pos hB']
+          exact close_congr p r1.symm r2.symm (by simp [r3])
+      · rw [onceA_part p σ input hA (by rw [hwg]; exact hfs) (by rw [hwg]; exact hfull), hwg]
+        have hwin : w = input := by
+          rw [← hw]; apply List.take_of_length_le; omega
+        have hwl : w.length = input.length := by rw [hwin]
+        refine ⟨by omega, by omega, ?_⟩
+        have htk : input.take w.length = w := by rw [hwin]; simp
+        simp only [htk]
+        have h0 : ¬ (σ.mid ∧ w.head? = some FD) := by rw [hwhead]; exact hA
+        obtain ⟨r1, r2, r3, r4⟩ := fold_run p w σ h0 hfs (by omega)
+        have hwne : w ≠ [] := by rw [hwin]; exact hne
+        apply BS.ext_eff
+        · exact r1.symm
+        · exact r2.symm
+        · rw [r3]
+          by_cases hlast : w.getLast? = some FE
+          · simp only [BS.eff, hlast, if_true, decide_true, List.append_assoc]
+            rw [take_pred_of_getLast hlast]
+          · simp [BS.eff, hlast]
+        · exact (r4 hwne).symm
+
 end Woodpile.Hcobs.EncProof
